@@ -47,6 +47,11 @@ def run(ctx):
     bytes_elisp(ctx, lexpr)
     bytes_notation(ctx, lexpr)
     rescan(ctx, lexpr)
+    # integers are printed the same way under every option set: the boundary magnitudes keep their representation
+    # when read back (shared with C01 / C05)
+    from . import c05
+    c05.int_boundary(ctx.rule("R-INT-BOUNDARY", "parse_num_tail stores boundary magnitudes as the exact integer: "
+                                                "[-2^63, 2^64-1] stays an integer, beyond that a float"), lexpr)
     # a symbol is printed verbatim: it must come back as that symbol unless it is exactly the `nil` / `t` the options
     # give a meaning to, or carries the postfix-keyword colon (decision table shared with C08)
     from . import c08
